@@ -85,6 +85,16 @@ def cases(ctx):
             t = [['k', 'id']] + [[k, 'r%d' % i] for i, k in enumerate(col)]
             for rev in (False, True):
                 yield {'kind': 'sort', 'table': t, 'key': 'k', 'reverse': rev}
+    # rows that tie under the key as the header defines it but differ beyond it - surplus cells of long rows, or a cell that one row
+    # lacks and the other holds as None: they keep their input order, under the whole-row key (key=None) and under explicit keys
+    tied = [['x', 1, 'zz'], ['x', 1, 'aa'], ['x', 1], ['x', 1, None, 0], ['x'], ['x', None], ['a', 2, 'q']]
+    for perm in itertools.permutations(range(len(tied)), 4):
+        if ctx.quick and sum(perm) % 4:
+            continue
+        t = [['k', 'v']] + [list(tied[i]) for i in perm]
+        for key in (None, ('k', 'v'), 'k'):
+            for rev in (False, True):
+                yield {'kind': 'sort', 'table': t, 'key': key, 'reverse': rev, 'tied-beyond-the-header': True}
     rng = ctx.rng('random')
     for i in range(ctx.pick(2500, 60000)):
         pool = gen.KEY_POOL if rng.random() < 0.6 else gen.POOL
